@@ -4,6 +4,7 @@ package pfcpiface
 
 import (
 	"fmt"
+	"strings"
 	"testing"
 	"time"
 
@@ -177,21 +178,26 @@ func TestVerif_C14(t *testing.T) {
 					}
 				}
 				newTun := map[uint32]c14Tunnel{}
+				var modSig []string
 				for _, id := range ids {
 					if rng.Intn(3) == 0 && len(ids) > 1 {
 						continue
 					}
 					old := *s.fars[id]
 					nf := vFARSpec{ID: id, Action: ActionForward, Fwd: true, HasDst: true, DstIf: ie.DstInterfaceAccess, OHC: true, OHCTeid: uint32(rng.Intn(1<<31)) + 1, OHCIP: gnbs[rng.Intn(len(gnbs))]}
+					kindSig := "F"
 					switch rng.Intn(6) {
 					case 0:
 						nf = vFARSpec{ID: id, Action: ActionBuffer | ActionNotify, Fwd: true, HasDst: true, DstIf: ie.DstInterfaceAccess}
+						kindSig = "B"
 					case 1:
 						// same tunnel again
 						if old.Fwd {
 							nf.OHCIP, nf.OHCTeid = vIPStr(old.IP), old.Teid
+							kindSig = "S"
 						}
 					case 2:
+						kindSig = "T"
 						// another base station that happens to use the same TEID / the same base station with another TEID
 						if old.Fwd && rng.Intn(2) == 0 {
 							nf.OHCTeid = old.Teid
@@ -203,9 +209,14 @@ func TestVerif_C14(t *testing.T) {
 					case 0:
 						// the update does not repeat the Destination Interface (it only carries the new tunnel)
 						nf.HasDst = false
+						kindSig += "n"
 					case 1:
 						// the rule is turned around: it forwards to the core side from now on (no tunnel)
 						nf = vFARSpec{ID: id, Action: ActionForward, Fwd: true, HasDst: true, DstIf: ie.DstInterfaceCore}
+						kindSig = "C"
+					}
+					if !old.Fwd {
+						kindSig += "b" // the rule was not forwarding into a tunnel before
 					}
 					flag := old.Fwd && rng.Intn(2) == 0
 					if flag {
@@ -214,6 +225,10 @@ func TestVerif_C14(t *testing.T) {
 					} else if rng.Intn(3) == 0 {
 						nf.SMFlags = true // flags IE present, SNDEM bit clear
 					}
+					if flag {
+						kindSig += "!"
+					}
+					modSig = append(modSig, kindSig)
 					if rng.Intn(3) == 0 {
 						// other bits of the flags octet (drop buffered packets, query URRs, spare) do not change what SNDEM means
 						nf.SMExtra = []uint8{0x01, 0x04, 0x05, 0x80, 0xFD}[rng.Intn(5)]
@@ -357,7 +372,7 @@ func TestVerif_C14(t *testing.T) {
 						}
 					}
 				}
-				res.distinct(fmt.Sprintf("up4=%v/fars=%d/flagged=%d/acc=%v/unknown=%v", up4, len(mod.UpFAR), len(want), accepted, len(desc) > len(mod.UpFAR)-1))
+				res.distinct(fmt.Sprintf("up4=%v/%s/acc=%v/unknown=%v/failed-write=%v", up4, strings.Join(modSig, ","), accepted, len(desc) > len(mod.UpFAR)-1, failWrite))
 				if len(res.Samples) < 4 && len(want) > 0 {
 					res.sample(map[string]interface{}{"up4": up4, "modification": desc, "markers": fmt.Sprintf("%+v", mine)})
 				}
